@@ -100,6 +100,10 @@ func TestDecimalArithmetic(t *testing.T) {
 		eq(t, "Decimal.Truncate(0)", rat(a.Truncate(0)), new(big.Rat).SetInt(truncR(rat(a))), a)
 		p := r.Intn(10)
 		eq(t, "Decimal.Round", rat(a.Round(int32(p))), roundPlaces(rat(a), p), a, p)
+		// Exponent: rounding to at least -exponent places leaves the value unchanged
+		if pe := int(-a.Exponent()) + r.Intn(5); pe >= 0 && pe < 40 {
+			eq(t, "Decimal.Exponent (round to >= -exponent places is the identity)", roundPlaces(rat(a), pe), rat(a), a, pe)
+		}
 		sh := r.Intn(7) - 3
 		eq(t, "Decimal.Shift", rat(a.Shift(int32(sh))), new(big.Rat).Mul(rat(a), pow10(sh)), a, sh)
 		if tr := truncR(rat(a)); tr.IsInt64() && a.IntPart() != tr.Int64() {
